@@ -501,6 +501,18 @@ func (w *Writer) finishSection() error {
 				panic("fail on fresh block")
 			}
 		}
+		// The last block of this level must be written (and
+		// registered) before deciding whether another level is
+		// needed.
+		if err := w.flushBlock(); err != nil {
+			return err
+		}
+		if len(w.index) >= len(idx) {
+			// Keys so large that an index block holds a single
+			// entry: another level would not be any smaller.
+			// Readers scan a multi-block top level linearly.
+			break
+		}
 	}
 	if err := w.flushBlock(); err != nil {
 		return err
